@@ -302,7 +302,7 @@ func (l *Location) serve(hit *NetHit) Delivery {
 	switch l.State {
 	case oGood:
 		v := l.Doc()
-		d.Body, d.Doc, d.Intact = v.Bytes, v.Name, true
+		d.Body, d.Doc, d.Intact = append([]byte(nil), v.Bytes...), v.Name, true // (each delivery owns its bytes)
 		if l.SlowFirst > 0 && l.Fetches == 1 {
 			d.Delay = l.SlowFirst // the first requester is served slowly: a later requester overtakes it
 		}
@@ -324,7 +324,7 @@ func (l *Location) serve(hit *NetHit) Delivery {
 		if cut <= 0 || cut >= len(v.Bytes) {
 			cut = len(v.Bytes) / 2
 		}
-		d.Body, d.Doc, d.CutAt, d.CutErr = v.Bytes, v.Name, cut, l.State == oReset
+		d.Body, d.Doc, d.CutAt, d.CutErr = append([]byte(nil), v.Bytes...), v.Name, cut, l.State == oReset
 	case oEmpty:
 		d.Body = nil
 	case oStall:
